@@ -18,6 +18,7 @@ func init() {
 		Assumptions: []string{"a closed Done channel makes the select case ready", "close(ch) by the only sender-side owner"},
 		Run:         runC10,
 		Controls: []Control{
+			{Name: "collect-filters-in-place", File: "internal/minibus/bus.go", Old: "\tvar activeListeners []*listener\n", New: "\tactiveListeners := b.listeners[:0]\n", Expect: "R10.5"},
 			{Name: "value-pull-unconditional-send", File: "pkg/resource/value.go", Old: "\t\t\t\tcontinue\n\t\t\t}\n\t\t\tlast = change.Value\n\t\t\tselect {\n\t\t\tcase <-ctx.Done():\n\t\t\t\treturn // give up sending\n\t\t\tcase typedEvents <- change:\n\t\t\t}", New: "\t\t\t\tcontinue\n\t\t\t}\n\t\t\tlast = change.Value\n\t\t\ttypedEvents <- change", Expect: "R10.1"},
 			{Name: "collection-pull-no-defer-close", File: "pkg/resource/collection.go", Old: "\tgo func() {\n\t\tdefer close(send)\n\n\t\t// held tracks", New: "\tgo func() {\n\t\t// held tracks", Expect: "R10.2"},
 			{Name: "stop-without-nil", File: "internal/minibus/bus.go", Old: "\t\tclose(l.ch)\n\t\tl.ch = nil", New: "\t\tclose(l.ch)", Expect: "R10.3"},
@@ -562,6 +563,7 @@ func registryRebuild(c *an.Ctx, rule string) {
 			// collect the origins of the stored slice: follow append chains, phis, range elements
 			seen := map[ssa.Value]bool{}
 			fromLive, foreign := false, ""
+			inPlace := false
 			var walk func(v ssa.Value)
 			walk = func(v ssa.Value) {
 				if v == nil || seen[v] {
@@ -580,6 +582,15 @@ func registryRebuild(c *an.Ctx, rule string) {
 					}
 					foreign = "call " + an.CalleeName(x)
 				case *ssa.Slice:
+					// b.listeners[:k] shares the live backing array: appending to it overwrites entries that a Send,
+					// which iterates its snapshot outside the lock, may be reading
+					if x.High != nil || x.Low != nil {
+						for _, src := range an.Sources(x.X) {
+							if _, sn, f, okf := an.FieldOf(src); okf && f == "listeners" && strings.HasSuffix(sn, "minibus.Bus") {
+								inPlace = true
+							}
+						}
+					}
 					walk(x.X)
 				case *ssa.Const:
 				case *ssa.Alloc:
@@ -622,6 +633,8 @@ func registryRebuild(c *an.Ctx, rule string) {
 					}
 				})
 			}
+			c.Check(!inPlace, rule, an.FuncName(fn)+"|the listener set is rebuilt into a fresh slice", st.Pos(), "",
+				"the registry is filtered in place (append onto b.listeners[:k]): concurrent Sends iterate snapshots that share that backing array outside the lock, so an entry shifted into an earlier slot is delivered to twice (and the write races with their reads)")
 			c.Check(fromLive && foreign == "", rule, cons, st.Pos(), "the stored slice derives from b.listeners read in the same exclusive region",
 				"b.listeners is overwritten with a slice that does not derive (only) from the registry as read inside the same exclusive region ("+foreign+"): a listener registered since that snapshot is silently dropped and never receives another event")
 		})
